@@ -366,7 +366,16 @@ def add_func_facts():
     if ast.unparse(body[1].value) != "getattr(self, compiled_obj_name)(time=t, state=state)":
         raise Unsupported("add_func.func: return " + ast.unparse(body[1].value))
     call = [ast.unparse(s) for s in body[0].body]
-    if call != ["self.add_compiled_sympy_object(method_name, compiled_obj_name, sympy_obj_generator_func, oT, is_master_canary)"]:
+    EARLY = ["self.add_compiled_sympy_object(method_name, compiled_obj_name, sympy_obj_generator_func, oT, is_master_canary)"]
+    LATE = ["generator = getattr(self, getattr(sympy_obj_generator_func, '__name__', ''), sympy_obj_generator_func)",
+            "self.add_compiled_sympy_object(method_name, compiled_obj_name, generator, oT, is_master_canary)"]
+    # EARLY: the generator captured when the evaluator was registered (on a deep copy: the ORIGINAL model's getter);
+    # LATE: looked up by name on the object the evaluator is bound to
+    if call == LATE:
+        late_bound = True
+    elif call == EARLY:
+        late_bound = False
+    else:
         raise Unsupported("add_func.func: recompile call " + str(call))
     MISSING = "not hasattr(self, compiled_obj_name)"
     FLAG = "getattr(self._hasNewTransition, method_name)"
@@ -376,7 +385,7 @@ def add_func_facts():
         raise Unsupported("add_func.func: recompile condition " + ast.unparse(t))
     if FLAG in parts and MISSING in parts and parts.index(FLAG) < parts.index(MISSING):
         raise Unsupported("flag read before the hasattr test")
-    return MISSING in parts, FLAG in parts
+    return MISSING in parts, FLAG in parts, late_bound
 
 
 def compile_facts():
@@ -539,9 +548,11 @@ def extract():
     names = canary_names()
     table = mutator_table(evaluators)
     trip_value, reset_value = canary_facts()
-    cond_missing, cond_flag = add_func_facts()
+    cond_missing, cond_flag, late_bound = add_func_facts()
     at_call, trip_first = compile_facts()
     fresh, why = getters_fresh(regs)
+    if not late_bound:
+        fresh, why = False, "add_func captures the generator at registration: a deep copy recompiles from the original model's lists"
     sets_sp, sp_trips = sp_facts()
     return dict(mutators=table, canary=names, registered=[(r[0], r[1]) for r in regs],
                 cond_missing=cond_missing, cond_flag=cond_flag, trip_value=trip_value, reset_value=reset_value,
